@@ -126,10 +126,12 @@ fn expected(f: &str, members: &[Option<V>], a1: Option<&V>, a2: Option<&V>) -> E
                 match m {
                     Some(V::Int(i)) => out.push(V::Int(*i)),
                     Some(V::Float(f)) => {
-                        if f.fract() != 0.0 {
-                            return Exp::Unspecified;
+                        // "floating point numbers are truncated to their integer representation";
+                        // a float that has none (out of the i64 range) is not parsable
+                        if !f.is_finite() || f.abs() >= 9.2e18 {
+                            return Exp::Error;
                         }
-                        out.push(V::Int(*f as i64))
+                        out.push(V::Int(f.trunc() as i64))
                     }
                     Some(V::Str(s)) => {
                         let ok = !s.is_empty() && s.len() <= 18 && {
@@ -342,6 +344,7 @@ fn gen_members(u: &mut Choices, bias: &str) -> Vec<Option<V>> {
             }
             1 if bias == "char" => Some(V::Int(*u.pick(&[0i64, 1, 9, 5, 10, -1, 42, 7]))),
             1 => Some(V::Int(*u.pick(&[0i64, 1, -3, 42, 7]))),
+            2 if bias == "int" => Some(V::Float(*u.pick(&[1.5f64, -4.7, 2.0, 1e21, -1e30, 9.3e18, 0.99]))),
             2 => Some(V::Float(*u.pick(&[1.5f64, 0.5, 2.0, 10.25, -4.0]))),
             3 => Some(V::Bool(u.chance(1, 2))),
             4 => Some(V::Null),
